@@ -7,8 +7,8 @@ import time
 from common import (SCRATCH, SHIM, SIM_BIN, WORKERS, HarnessError, fresh_dir, load_known_findings, log, save_replay,
                     tree_fingerprint)
 
-SCRIPTS = {"quick": 48, "thorough": 1200}
-MULTI = {"quick": 1500, "thorough": 60000}
+SCRIPTS = {"quick": 96, "thorough": 1600}
+MULTI = {"quick": 4000, "thorough": 100000}
 
 
 def seam_env():
